@@ -58,7 +58,31 @@ def gen_meta(rng: core.Rng, tier: str) -> dict:
     for _ in range(rng.randint(1, 6)):
         acts.append([rng.choice(["works_for", "works_for", "member_of", "members", "sub"]), rng.next() % np_, rng.next() % nc_])
     prefix = [[rng.randint(1, 5), rng.chance(0.6), rng.chance(0.2)] for _ in range(rng.randint(1, 4 if tier == "quick" else 8))]
-    return {"np": np_, "nc": nc_, "acts": acts, "prefix": prefix}
+    dead = [[rng.next() % nc_, rng.chance(0.5)] for _ in range(rng.randint(0, 2))] if rng.chance(0.5) else []
+    return {"np": np_, "nc": nc_, "acts": acts, "prefix": prefix, "dead_sources": dead}
+
+
+def dead_source_class(m) -> bool:
+    """K_dead_source: a company that was a sub-organisation of cs[j] is dead but NOT yet swept when cs[j] itself is asserted to be
+    a sub-organisation of something: the transitive inference walks to the dead source."""
+    unswept = {j % m["nc"] for j, sweep in m.get("dead_sources", ()) if not sweep}
+    # a sweep for a later dead source also removes the earlier ones
+    swept_after = set()
+    ds = list(m.get("dead_sources", ()))
+    for k, (j, sweep) in enumerate(ds):
+        if any(sw for _, sw in ds[k + 1:]):
+            swept_after.add(k)
+    unswept = {j % m["nc"] for k, (j, sweep) in enumerate(ds) if not sweep and k not in swept_after}
+    return any(kind == "sub" and (i % m["nc"]) in unswept for kind, i, j in m["acts"])
+
+
+def dead_source_match(m, r) -> bool:
+    """narrow: the fresh run is clean, and in the 'after' run every exception is the AttributeError of an assertion
+    `cs[i].sub_organization_of.append(...)` whose source has an unswept dead sub-organisation"""
+    if "fatal" in r or r["fresh"]["log"]:
+        return False
+    log = r["after"]["log"]
+    return bool(log) and all(e[1] == "AttributeError" and e[2] == "sub" for e in log)
 
 
 def meta_snippet(p) -> str:
@@ -74,7 +98,8 @@ def run(tier: str, seed: int, replay=None) -> int:
     rep.assume = c13.ASSUME
     rep.rule = ("corpus + seeded histories 'garbage prefix (1-3 rounds quick / 1-6 thorough of New, Relate, Drop, Sweep, rarely Clear) then "
                 "2-7 assertions' + the exhaustive length-4 histories of C13 + metamorphic descriptor cases (1-3 persons, 1-3 companies, "
-                "1-6 assignments, 1-4 garbage rounds of 1-5 related pairs); non-trivial = >= 4 ops of >= 3 kinds (histories), every meta case")
+                "1-6 assignments, 1-4 garbage rounds of 1-5 related pairs, in half of the cases 0-2 dead companies that were sub-organisations of "
+                "the companies of the assertions, swept or not); non-trivial = >= 4 ops of >= 3 kinds (histories), every meta case")
     ok_spec, log = core.coq_make(["Base/Sx.vo", "Onto/RegistrySpec.vo", "Onto/RegistrySpecRun.vo"])
     rep.oblige("build:spec", ok_spec, "" if ok_spec else core.first_error(log))
     model_ok = c13.proof_steps(rep, PROP)
@@ -105,6 +130,9 @@ def run(tier: str, seed: int, replay=None) -> int:
     diff_fields = 0
     for m, r in zip(metas, mres):
         rep.count("meta:" + json.dumps(m), True)
+        if "fatal" not in r and r["fresh"] != r["after"] and dead_source_class(m) and dead_source_match(m, r):
+            inst["C14-b"] = inst.get("C14-b", 0) + 1
+            continue
         if "fatal" in r or r["fresh"] != r["after"]:
             nbad += 1
             if nbad <= 3:
@@ -117,4 +145,20 @@ def run(tier: str, seed: int, replay=None) -> int:
     rep.samples = [{"case": h} for h in hists[-3:]] + [{"meta": m} for m in metas[:2]]
     if not (replay and (replay.get("case") is not None or replay.get("meta") is not None)):
         c13.replay_findings(rep, PROP, model_ok, {})
+        # findings whose witness is a metamorphic case
+        mf = [f for f in core.load_findings(PROP) if "meta" in json.loads((core.VERIF / f.witness).read_text())]
+        mw = [json.loads((core.VERIF / f.witness).read_text())["meta"] for f in mf]
+        _, mr = c13.run_jobs([("meta", m) for m in mw]) if mw else (None, [])
+        for f, m, r in zip(mf, mw, mr):
+            rep.count("kf:" + f.fid, True)
+            same = "fatal" not in r and r["fresh"] == r["after"]
+            if f.kind == "open" and not same and dead_source_class(m) and dead_source_match(m, r):
+                rep.known(f)
+            elif f.kind == "open" and same:
+                rep.note(f"finding {f.fid}: witness no longer fails (appears repaired)")
+            elif f.kind == "fixed" and same:
+                pass
+            else:
+                rep.violation({"kind": "counterexample", "meta": m, "impl": r, "finding": f.fid, "python": meta_snippet(m),
+                               "explanation": "witness of a listed finding behaves differently from what is listed"})
     return rep.finish()
